@@ -40,7 +40,7 @@ pub fn c02(tier: Tier, seed: u64) -> Prop {
     for r in C02_ROWS {
         units.extend(units_for_row(r, tier, seed));
     }
-    Prop { id: "C02", level: "exploration", rule: RULE.into(), assumptions: assumptions(), units, extra: no_extra() }
+    Prop { id: "C02", level: "exploration", rule: RULE.into(), assumptions: assumptions(), units, extra: no_extra(), profiles: vec!["release"] }
 }
 
 pub fn c03(tier: Tier, seed: u64) -> Prop {
@@ -48,5 +48,5 @@ pub fn c03(tier: Tier, seed: u64) -> Prop {
     for r in C03_ROWS {
         units.extend(units_for_row(r, tier, seed));
     }
-    Prop { id: "C03", level: "exploration", rule: RULE.into(), assumptions: assumptions(), units, extra: no_extra() }
+    Prop { id: "C03", level: "exploration", rule: RULE.into(), assumptions: assumptions(), units, extra: no_extra(), profiles: vec!["release"] }
 }
